@@ -14,11 +14,8 @@
   * a required member missing inside a group entry is only visible to the walk, i.e. under RejectInvalidMessage.
   * user-defined tags (≥ 5000) are governed by CheckUserDefinedFields, others by AllowUnknownMessageFields.
 
-  Narrow signatures for defects of the unchanged tree that surface here whatever was planted (known findings):
-    parse_sectioning{field_on_wire_not_in_map}   reject(1,t) although `t=` is on the wire: the dictionary-guided parser
-                                                 filed it inside a repeating group (D6, codec family)
-  (the recognisers for `transport_msgtype_enum`, `multiple_value_enum` and the `grptail` hint belonged to defects that are
-   now fixed in the repo; a recurrence shows up as `accepts{reason5}` / `defect_required_missing{accept,grptail}`)
+  (the recognisers for `parse_sectioning` (D6), `transport_msgtype_enum`, `multiple_value_enum` and the `grptail` hint belonged
+   to defects that are now fixed in the repo; a recurrence shows up as an ordinary clause failure)
 -/
 import Qfx.Model.Validate
 namespace Qfx.Validate
@@ -104,11 +101,10 @@ def dictFor (app : VDict) (tr : Option VDict) (mt : Bytes) (t : Nat) : VDict :=
 
 /-- known defects of the unchanged tree, recognised by what the implementation said (not by what was planted) -/
 def knownSignature (app : VDict) (tr : Option VDict) (m : PMsg) (o : Obs) : Option String :=
-  match o with
-  | .reject ⟨1, some t⟩ =>
-    if m.fields.any (fun f => f.tag == t) && !(m.hdr.contains t || m.body.contains t || m.trl.contains t)
-    then some "parse_sectioning{field_on_wire_not_in_map}" else none
-  | _ => none
+  -- D6 (dictionary-guided parser filing body fields inside a group) is fixed in the repo (d0a429c); its recogniser is
+  -- gone with it, so a recurrence is judged like any other outcome
+  let _ := (app, tr, m, o)
+  none
 
 def obsCtx : Obs → String
   | .accept => "accept"
